@@ -117,6 +117,7 @@ type havocProv struct {
 	modified  map[string]bool
 	all       bool // everything modified (unknown call in the loop)
 	startN    int  // unit fresh-name counter when the loop was entered
+	frameKeys map[string]bool
 }
 
 func (p *havocProv) get(u *Unit, key string) string {
@@ -141,6 +142,14 @@ func (p *havocProv) get(u *Unit, key string) string {
 	u.heapTyping(key, n)
 	if p.finalized {
 		p.frameAxiom(u, key, n)
+	}
+	if u.frameInv && u.frameKeyOK(key) {
+		// implicit frame invariant (checked in loopFrameObligations)
+		if p.frameKeys == nil {
+			p.frameKeys = map[string]bool{}
+		}
+		p.frameKeys[key] = true
+		u.assert(u.frameFact(key, n))
 	}
 	return n
 }
@@ -299,4 +308,25 @@ func (u *Unit) entryHeldAssume(key, n string) {
 // the function calls without a contract (see havocAll)
 func threadLocalKey(k string) bool {
 	return strings.HasPrefix(k, "Held.") || strings.HasPrefix(k, "Blk.") || strings.HasPrefix(k, "cell.") || strings.HasPrefix(k, "iter.")
+}
+
+// frameKeyOK: keys subject to the function-level frame (object-indexed data heap keys not
+// listed wholesale in the modifies clause)
+func (u *Unit) frameKeyOK(key string) bool {
+	if threadLocalKey(key) {
+		return false
+	}
+	if key == allocKey || !strings.HasPrefix(u.keySort[key], "(Array Int ") {
+		return false
+	}
+	return !u.allowedWhole[key]
+}
+
+// frameFact: objects existing at function entry, other than those named by modifies, have their entry value
+func (u *Unit) frameFact(key, cur string) string {
+	cond := "(<= r!f " + u.entryState.get(u, allocKey) + ")"
+	for _, x := range u.allowedRefs[key] {
+		cond += " (not (= r!f " + x + "))"
+	}
+	return fmt.Sprintf("(forall ((r!f Int)) (! (=> (and %s) (= (select %s r!f) (select %s r!f))) :pattern ((select %s r!f))))", cond, cur, u.entryState.get(u, key), cur)
 }
